@@ -284,11 +284,11 @@ def main(modname, argv=None):
                     info=r.get('info'))
         h = hashlib.sha256(json.dumps(body, sort_keys=True, default=str).encode()).hexdigest()[:10]
         path = os.path.join(VERIF, 'replays', '%s-%s.json' % (prop, h))
-        if len(seen) < 10:
+        if len(seen) < 4:
             json.dump(body, open(path, 'w'), indent=1, default=str)
             lines.append('VIOLATION property=%s replay=%s' % (prop, path))
             lines.append('  unit=%s inputs=%s' % (uname, json.dumps(r['model'], default=str)[:400]))
-            lines.append('  observed: %s' % (json.dumps(r.get('info'), default=str)[:600]))
+            lines.append('  observed: %s' % (json.dumps(r.get('info'), default=str)[:500]))
         seen.add(h)
     if violations:
         rc = 1
@@ -296,9 +296,9 @@ def main(modname, argv=None):
         rc = 3
     elif inconclusive:
         rc = 2
-    for nm, kind, msg in harness_err[:10]:
-        lines.append('HARNESS-ERROR unit=%s %s: %s' % (nm, kind, msg[:1500]))
-    for nm, kind, msg in inconclusive[:10]:
+    for nm, kind, msg in harness_err[:5]:
+        lines.append('HARNESS-ERROR unit=%s %s: %s' % (nm, kind, msg[:700]))
+    for nm, kind, msg in inconclusive[:5]:
         lines.append('INCONCLUSIVE unit=%s %s: %s' % (nm, kind, msg[:600]))
 
     wall = time.time() - t0
